@@ -557,6 +557,8 @@ func c18GenHTTP(r *hysim.Rand, tier string) *hysim.Script {
 	sc.Cfg["logger"] = int64(r.Pick(0, 1))
 	sc.Cfg["dial_us"] = r.Pick64(0, 0, 300, 20000, 400000)
 	sc.Cfg["interfere"] = int64(r.Pick(0, 1))
+	sc.Cfg["interfere_cred"] = int64(r.Pick(0, 1))
+	sc.Cfg["auth_us"] = r.Pick64(0, 0, 500, 50000)
 	nc := r.Range(1, 4)
 	if tier == "thorough" {
 		nc = r.Range(1, 10)
@@ -637,6 +639,9 @@ func c18ExecHTTP(x *hysim.Run) {
 	if w.authOn {
 		s.AuthFunc = func(u, p string) bool {
 			hysim.Yield("mock.AuthFunc")
+			if d := sc.Get("auth_us", 0); d > 0 {
+				time.Sleep(time.Duration(c18Clamp(d, 0, 5000000)) * time.Microsecond) // a slow credential backend
+			}
 			ok := c18AuthTable(u, p)
 			r := w.tags[strings.TrimPrefix(u, "u-")]
 			x.Ev("AuthFunc(%q, %dB) -> %v", u, len(p), ok)
@@ -799,7 +804,19 @@ func (w *c18HWorld) one(s *Server, c *c18HConn) {
 		bs, bc := simnet.NewStreamPair(x, simnet.StreamCfg{}, fmt.Sprintf("http-isrv%d", id), fmt.Sprintf("http-icli%d", id))
 		hysim.Go("harness:interfering-dispatch", func() { s.dispatch(bs) })
 		hysim.Go("harness:interfering-client", func() {
-			req := "GET http://interfere.invalid/" + strings.Repeat("i", 900) + " HTTP/1.1\r\nHost: interfere.invalid\r\nX-Fill: " + strings.Repeat("I", 900) + "\r\nConnection: close\r\n\r\n"
+			// it may repeat the (rejected) credentials of this connection's first request word for
+			// word: whatever the server remembers about a header must be that header's own verdict
+			cred := ""
+			if len(c.reqs) > 0 && !c.reqs[0].credOK && x.Script.Get("interfere_cred", 0) == 1 {
+				raw := string(c.reqs[0].raw)
+				if i := strings.Index(raw, "Proxy-Authorization:"); i >= 0 {
+					if j := strings.Index(raw[i:], "\r\n"); j > 0 {
+						cred = raw[i:i+j] + "\r\n"
+						x.Probe("interfering-connection-repeats-rejected-credentials")
+					}
+				}
+			}
+			req := "GET http://interfere.invalid/" + strings.Repeat("i", 900) + " HTTP/1.1\r\nHost: interfere.invalid\r\n" + cred + "X-Fill: " + strings.Repeat("I", 900) + "\r\nConnection: close\r\n\r\n"
 			_, _ = bc.Write([]byte(req))
 			buf := make([]byte, 2048)
 			_ = bc.SetReadDeadline(time.Now().Add(5 * time.Second))
